@@ -150,3 +150,14 @@ Fixpoint gml_eqb (a b : list gm) : bool :=
   | _, _ => false
   end.
 Definition gmean_b (arr sc : list Z) (r : list gm) : bool := gml_eqb (gmean_ref arr sc) r.
+
+(* ---------- stage 3: dtype range conditions ---------- *)
+Definition in_dt (dt : dtype) (x : Z) : Prop := dt_lo dt <= x <= dt_hi dt.
+Definition in_dt_b (dt : dtype) (x : Z) : bool := (dt_lo dt <=? x) && (x <=? dt_hi dt).
+(* no difference of two ids of the vector exceeds the top of the dtype's range *)
+Definition Span_Fits (dt : dtype) (sc : list Z) : Prop :=
+  forall a b, In a sc -> In b sc -> b - a <= dt_hi dt.
+Definition span_fits_b (dt : dtype) (sc : list Z) : bool :=
+  match sc with [] => true | x :: r => fold_right Z.max x r - fold_right Z.min x r <=? dt_hi dt end.
+(* a dtype as NumPy has them: 0 and 1 are representable *)
+Definition dt_ok (dt : dtype) : Prop := dt_lo dt <= 0 /\ 1 <= dt_hi dt.
